@@ -130,6 +130,80 @@ func init() {
 		return nil
 	})
 
+	// ---- sync.Map (sequential) ----
+	smap := func(in *Interp, p Ptr) *MapObj {
+		m := in.syncMaps[p]
+		if m == nil {
+			m = &MapObj{kvals: map[string]Value{}, vals: map[string]Value{}}
+			in.syncMaps[p] = m
+		}
+		return m
+	}
+	reg("sync.Map.Load", func(in *Interp, fn *ssa.Function, args []Value) Value {
+		m := smap(in, args[0].(Ptr))
+		if v, ok := m.vals[in.keyString(args[1])]; ok {
+			return TupleV{v, in.ctx.Bool(true)}
+		}
+		return TupleV{&IfaceV{}, in.ctx.Bool(false)}
+	})
+	reg("sync.Map.Store", func(in *Interp, fn *ssa.Function, args []Value) Value {
+		m := smap(in, args[0].(Ptr))
+		ks := in.keyString(args[1])
+		if _, ok := m.vals[ks]; !ok {
+			m.keys = append(m.keys, ks)
+			m.kvals[ks] = args[1]
+		}
+		m.vals[ks] = args[2]
+		return nil
+	})
+	reg("sync.Map.LoadOrStore", func(in *Interp, fn *ssa.Function, args []Value) Value {
+		m := smap(in, args[0].(Ptr))
+		ks := in.keyString(args[1])
+		if v, ok := m.vals[ks]; ok {
+			return TupleV{v, in.ctx.Bool(true)}
+		}
+		m.keys = append(m.keys, ks)
+		m.kvals[ks] = args[1]
+		m.vals[ks] = args[2]
+		return TupleV{args[2], in.ctx.Bool(false)}
+	})
+	reg("sync.Map.Delete sync.Map.LoadAndDelete", func(in *Interp, fn *ssa.Function, args []Value) Value {
+		m := smap(in, args[0].(Ptr))
+		ks := in.keyString(args[1])
+		v, ok := m.vals[ks]
+		if ok {
+			delete(m.vals, ks)
+			delete(m.kvals, ks)
+			for i, x := range m.keys {
+				if x == ks {
+					m.keys = append(m.keys[:i:i], m.keys[i+1:]...)
+					break
+				}
+			}
+		}
+		if fn.Name() == "Delete" {
+			return nil
+		}
+		if !ok {
+			v = &IfaceV{}
+		}
+		return TupleV{v, in.ctx.Bool(ok)}
+	})
+	reg("sync.Map.Range", func(in *Interp, fn *ssa.Function, args []Value) Value {
+		m := smap(in, args[0].(Ptr))
+		for _, ks := range append([]string(nil), m.keys...) {
+			v, ok := m.vals[ks]
+			if !ok {
+				continue
+			}
+			r := in.callValue(args[1], []Value{m.kvals[ks], v}, nil).(*Term)
+			if !in.branch(r) {
+				break
+			}
+		}
+		return nil
+	})
+
 	// ---- sync/atomic (sequential) ----
 	for _, t := range []struct {
 		n string
